@@ -80,8 +80,12 @@ KEYS = {
 }
 
 
+import re as _re
+_FRESH = _re.compile(r'x[0-9]+__fresh')
+
+
 def setup(decider, strategy, jobs, nbits, script, mutset, maxwrites=12,
-          prefetch=4, oracle='first'):
+          prefetch=4, oracle='first', norm_fresh=False):
     """Install the environment; returns Env with .restore()."""
     import logging
     from ddsmt import (checker, nodeio, strategy_ddmin, strategy_hierarchical,
@@ -114,13 +118,19 @@ def setup(decider, strategy, jobs, nbits, script, mutset, maxwrites=12,
         saved[(mod, name)] = getattr(mod, name)
         setattr(mod, name, val)
 
+    def norm(t):
+        # known finding C18-fresh-name-node-id: fresh symbols carry node ids
+        return _FRESH.sub('x#__fresh', t) if norm_fresh else t
+
     def check_exprs(exprs):
-        v = env.oracle.check_exprs(exprs)
-        env.events.append(('check', tokens(exprs), v))
+        t = norm(tokens(exprs))
+        v = env.oracle.verdict(t)
+        env.oracle.calls.append((t, v))
+        env.events.append(('check', t, v))
         return v
 
     def write(filename, exprs):
-        t = tokens(exprs)
+        t = norm(tokens(exprs))
         env.writes.append(t)
         env.events.append(('write', t))
         if len(env.writes) > maxwrites:
